@@ -102,22 +102,27 @@ theorem qubitAxis_rule (Lx Ly : Nat) (q : Coord) (h : q ∈ (lattice Lx Ly).qubi
 /-- 'XZZX': X↔Z exactly on the qubits whose axis is the deformation axis, identity elsewhere;
     `ValueError` (none) where `qubit_axis` raises -/
 theorem deformation_rule_XZZX (axis : String) (loc : Coord) (hax : axis = "x" ∨ axis = "y") :
-    getDeformation "XZZX" axis loc =
+    getDeformation "XZZX" (some axis) loc =
       (qubitAxis loc).map (fun a => if a = axis then PauliMap.swapXZ else PauliMap.id) :=
   deformBy_XZZX _ _ _ hax
 
 /-- 'XY': Y↔Z at every location -/
 theorem deformation_rule_XY (axis : String) (loc : Coord) (hax : axis = "x" ∨ axis = "y") :
-    getDeformation "XY" axis loc = some PauliMap.swapYZ :=
+    getDeformation "XY" (some axis) loc = some PauliMap.swapYZ :=
   deformBy_XY _ _ _ hax
+
+/-- a call that does not pass `deformation_axis` (the signature default `'y'`: `deform(name)` of
+    the visualizer backend and of simulation inputs without `deformation_kwargs`) deforms along y -/
+theorem deformation_default_axis (name : String) (loc : Coord) :
+    getDeformation name none loc = getDeformation name (some "y") loc := rfl
 
 /-- any other axis: ValueError -/
 theorem deformation_rule_bad_axis (name axis : String) (loc : Coord)
-    (hx : axis ≠ "x") (hy : axis ≠ "y") : getDeformation name axis loc = none :=
+    (hx : axis ≠ "x") (hy : axis ≠ "y") : getDeformation name (some axis) loc = none :=
   deformBy_bad_axis _ _ _ _ hx hy
 
 /-- any other name: ValueError -/
-theorem deformation_rule_bad_name (name axis : String) (loc : Coord)
+theorem deformation_rule_bad_name (name : String) (axis : Option String) (loc : Coord)
     (h1 : name ≠ "XZZX") (h2 : name ≠ "XY") : getDeformation name axis loc = none :=
   deformBy_bad_name _ _ _ _ h1 h2
 
@@ -125,7 +130,7 @@ theorem deformation_rule_bad_name (name axis : String) (loc : Coord)
     maps -/
 theorem deformation_rule_on_qubits (Lx Ly : Nat) (axis : String) (q : Coord)
     (hax : axis = "x" ∨ axis = "y") (h : q ∈ (lattice Lx Ly).qubits) :
-    getDeformation "XZZX" axis q =
+    getDeformation "XZZX" (some axis) q =
       some (if qubitAxis q = some axis then PauliMap.swapXZ else PauliMap.id) := by
   rw [deformation_rule_XZZX axis q hax]
   obtain ⟨x, y, rfl, h' | h'⟩ := qubitAxis_of_mem h <;> rw [h'.2.2] <;> simp
@@ -140,9 +145,13 @@ example : (lattice 2 3).getStab [3, 5] =
     [([2, 5], .X), ([0, 5], .X), ([3, 4], .X), ([3, 0], .X)] := by decide
 /-- outside the family (`Lx = 1`) the two x-neighbours coincide and the dict has 3 entries -/
 example : (lattice 1 2).getStab [0, 0] = [([1, 0], .Z), ([0, 3], .Z), ([0, 1], .Z)] := by decide
-example : getDeformation "XZZX" "x" [1, 0] = some PauliMap.swapXZ := by decide
-example : getDeformation "XZZX" "y" [1, 0] = some PauliMap.id := by decide
-example : getDeformation "XZZX" "z" [1, 0] = none := by decide
+example : getDeformation "XZZX" (some "x") [1, 0] = some PauliMap.swapXZ := by decide
+example : getDeformation "XZZX" (some "y") [1, 0] = some PauliMap.id := by decide
+example : getDeformation "XZZX" (some "z") [1, 0] = none := by decide
+/-- keyword omitted: the default axis `y` -/
+example : getDeformation "XZZX" none [1, 0] = getDeformation "XZZX" (some "y") [1, 0] := rfl
+example : getDeformation "XY" none [1, 0] = some PauliMap.swapYZ := by decide
+example : getDeformation "XZZX" none [1, 0] ≠ getDeformation "XZZX" (some "x") [1, 0] := by decide
 example : IndepGenerators (lattice 2 3) (selStabs 2 3) :=
   generators_independent 2 3 (by decide) (by decide)
 example : (selStabs 2 3).length = 10 := by decide
